@@ -15,8 +15,10 @@ import collections
 import copy
 import itertools
 import json
+import contextlib
 import os
 import random
+import signal
 
 from .common import paths, semgen, tables
 from .common.runner import Check
@@ -169,7 +171,7 @@ def rename_shuffle(rng, j, rename=True, shuffle=True):
 
 
 MUTATIONS = ["pred", "argtarget", "argrole", "argdrop", "argadd", "carg", "prop", "propadd", "hcons", "hcrel",
-             "icons", "label", "predcase"]
+             "icons", "label", "predcase", "propcase"]
 
 
 def mutate(rng, j, what, fresh=False):
@@ -238,6 +240,14 @@ def mutate(rng, j, what, fresh=False):
         old = ps[i][1]
         ps[i][1] = "zed" if fresh else rng.choice([x for x in ["1", "3", "sg", "pl", "past", "pres"] if x.lower() != old.lower()])
         return j
+    if what == "propcase":      # NOT a change: property names and values are compared case-insensitively
+        cands = [(ps, i) for _, ps in j["vars"] for i in range(len(ps))]
+        if not cands:
+            return None
+        ps, i = rng.choice(cands)
+        k = rng.randrange(2)
+        ps[i][k] = ps[i][k].swapcase()
+        return j
     if what == "propadd":
         owners = [iv_of(e) for e in rels if iv_of(e) is not None]
         if not owners:
@@ -296,7 +306,7 @@ def _case_noise(rng, s):
     return s.upper() if r < 0.15 else s.lower() if r < 0.3 else s
 
 
-def gen_random(rng, n, npred=2, share=0.5, argp=0.45, quant=0.3, cargp=0.15, propp=0.4, iconp=0.15,
+def gen_random(rng, n, npred=2, share=0.5, argp=0.45, quant=0.3, cargp=0.15, propp=0.4, iconp=0.25,
                selfp=0.08, missing_arg0=False, shared_ivs=False):
     """random MRS over a small predicate alphabet (so that near-symmetric structures are common)"""
     preds = rng.sample(["_p_v_1", "_q_n_1", "_r_a_1", "named", "_and_c"], npred)
@@ -687,10 +697,42 @@ def canon_graph(g):
                   for n, d in g.items())
 
 
+class Nonterminating(Exception):
+    pass
+
+
+@contextlib.contextmanager
+def time_limit(seconds):
+    """the real code is run under an alarm: a matcher that no longer terminates must not hang the check"""
+    def handler(signum, frame):
+        _Limit.timeouts += 1
+        raise Nonterminating()
+    old = signal.signal(signal.SIGALRM, handler)
+    signal.setitimer(signal.ITIMER_REAL, float(seconds))
+    try:
+        yield
+    finally:
+        signal.setitimer(signal.ITIMER_REAL, 0)
+        signal.signal(signal.SIGALRM, old)
+
+
+class _Limit:
+    """20 s per call of the real code; after two calls that did not terminate, 0.3 s (so that a
+    matcher that hangs on a whole class of inputs costs seconds, not hours)"""
+    timeouts = 0
+
+    def __float__(self):
+        return 20.0 if _Limit.timeouts < 2 else 0.3
+
+
+LIMIT = _Limit()
+
+
 def run_iso(j1, j2, props):
     m1 = semgen.mrs_from_json(copy.deepcopy(j1))
     m2 = semgen.mrs_from_json(copy.deepcopy(j2))
-    return _mrs.is_isomorphic(m1, m2, properties=props)
+    with time_limit(LIMIT):
+        return _mrs.is_isomorphic(m1, m2, properties=props)
 
 
 class C06(Check):
@@ -745,7 +787,7 @@ class C06(Check):
             mu = mutate(rng, m, what, fresh=(big and rng.random() < 0.5))
             if mu is None or not in_space(mu):
                 continue
-            yield mk("mutant:" + what, m, rename_shuffle(rng, mu), props if what not in ("prop", "propadd") else rng.random() < 0.8)
+            yield mk("mutant:" + what, m, rename_shuffle(rng, mu), props if what not in ("prop", "propadd", "propcase") else rng.random() < 0.8)
 
     def cases(self, rng, tier, n):
         known = _known_ids()
@@ -764,7 +806,7 @@ class C06(Check):
         nbig = 0
         while count < n:
             r = rng.random()
-            if r < 0.06:
+            if r < 0.09:
                 c = self.gen_bags(rng)
                 yield c
                 count += 1
@@ -780,7 +822,7 @@ class C06(Check):
                 continue
             if big:
                 nbig += 1
-            if r < 0.16 and not big:
+            if r < 0.2 and not big:
                 o = gen_family(rng, fam)
                 if in_space(o):
                     yield {"kind": "pair", "sub": "unrelated", "family": fam, "m1": m, "m2": rename_shuffle(rng, o),
@@ -845,22 +887,28 @@ class C06(Check):
             test = [semgen.mrs_from_json(copy.deepcopy(j)) for j in case["test"]]
             gold = [semgen.mrs_from_json(copy.deepcopy(j)) for j in case["gold"]]
             try:
-                return list(_mrs.compare_bags(test, gold, properties=case["props"]))
+                with time_limit(LIMIT):
+                    return list(_mrs.compare_bags(test, gold, properties=case["props"]))
             except KeyError:
                 return {"err": "KeyError"}
+            except Nonterminating:
+                return {"err": "Nonterminating"}
         props = case["props"]
         try:
             m1 = semgen.mrs_from_json(copy.deepcopy(case["m1"]))
             m2 = semgen.mrs_from_json(copy.deepcopy(case["m2"]))
-            verdict = _mrs.is_isomorphic(m1, m2, properties=props)
-            g1 = _operations._make_mrs_isograph(m1, props)
-            g2 = _operations._make_mrs_isograph(m2, props)
-            plain = canon_graph(g1)
-            mapping = util._vf2(g1, g2)          # augments g1, g2 in place
+            with time_limit(LIMIT):
+                verdict = _mrs.is_isomorphic(m1, m2, properties=props)
+                g1 = _operations._make_mrs_isograph(m1, props)
+                g2 = _operations._make_mrs_isograph(m2, props)
+                plain = canon_graph(g1)
+                mapping = util._vf2(g1, g2)          # augments g1, g2 in place
             return {"iso": bool(verdict), "map": [[a, b] for a, b in mapping.items()], "g1": plain,
                     "a1": canon_graph(g1)}
         except KeyError:
             return {"err": "KeyError"}
+        except Nonterminating:
+            return {"err": "Nonterminating"}
 
     def model_request(self, case):
         if case["kind"] == "bags":
@@ -886,10 +934,17 @@ class C06(Check):
         if case["kind"] == "bags":
             return self.oracle_bags(case, res, fail) or fails
         if isinstance(res, dict) and "err" in res:
-            fail("is_isomorphic raised on a structure of the input space", res["err"])
+            fail("is_isomorphic raised or did not terminate on a structure of the input space", res["err"])
             return fails
         j1, j2, props = case["m1"], case["m2"], case["props"]
         verdict = res["iso"]
+        try:
+            return self.oracle_pair(case, j1, j2, props, verdict, fails, fail)
+        except Nonterminating:
+            fail("is_isomorphic raised or did not terminate on a structure of the input space", "Nonterminating")
+            return fails
+
+    def oracle_pair(self, case, j1, j2, props, verdict, fails, fail):
         # reflexive
         for name, j in (("m1", j1), ("m2", j2)):
             if run_iso(j, j, props) is not True:
@@ -926,7 +981,7 @@ class C06(Check):
 
     def oracle_bags(self, case, res, fail):
         if isinstance(res, dict):
-            fail("compare_bags raised", res)
+            fail("compare_bags raised or did not terminate", res)
             return
         u, s, g = res
         test, gold, props = case["test"], case["gold"], case["props"]
